@@ -545,6 +545,10 @@ def run(ctx, idx):
     rule_g(ctx, idx, A)
     rule_f(ctx, idx, A)
     rule_h(ctx, idx, A)
+    ctx.rule("C14.i", "A cycle written in EEMS 2.0 syntax reaches Program.run: the conversion turns every old command into one new command and drops none (a self-referencing COPYFIELD dropped as a 'no-op' is a cycle that is never reported).")
+    from .C16 import conversion_keeps_every_command
+
+    conversion_keeps_every_command(ctx, idx, "C14.i", "a command that references its own result (or closes a cycle) disappears before the program is run, and run() returns normally for a cyclic model")
     from .C01 import rule_e
 
     rule_e(ctx, idx, A, rule="C14.e", text="Restated here because the re-entry guard can only fire on a reference that is actually read: a cycle closed through an input the consumer skips (a zero weight, a short-circuit over the list) is never entered and the cyclic model runs to completion.")
